@@ -6,7 +6,7 @@ from checklib import cbytes, cbool, clist, cpair, cN
 
 ID = "C07"
 HARNESS = "c07"
-N_CASES = {"quick": 14, "thorough": 80}       # number of small data files; the harness derives the other classes from it
+N_CASES = {"quick": 14, "thorough": 40}       # number of small data files; the harness derives the other classes from it
 N_SEARCH = {"quick": 1, "thorough": 2}
 SHARD = 40
 HAS_MODEL_OUT = True
